@@ -36,19 +36,26 @@ def objLoc (s : St) (o : Nat) : Nat := (s.heap[o]?.map (·.loc)).getD 0
 def objPath (s : St) (o : Nat) : Path := (s.heap[o]?.map (·.path)).getD []
 def objValid (s : St) (o : Nat) : Bool := (s.heap[o]?.map (·.valid)).getD false
 
+/-- the registry without its `valid_paths` cache: is a valid object with path `p` stored at the node `np` for `l`? -/
+def specValid (s : St) (np : Path) (l : Nat) (p : Path) : Bool :=
+  (s.locs np l).any (fun o => objValid s o && objPath s o == p)
+
+/-- `set.add` -/
+def setAddP (vp : List Path) (p : Path) : List Path := if p ∈ vp then vp else vp ++ [p]
+
 /-- the bottom-up loop of `put`: `nps` are the node paths still to process (deepest first); at the node `path` itself the
-    given object is stored, at an ancestor a new PRIMARY object for that ancestor; the loop stops at the first node whose
-    `valid_paths` already holds the path of the object to store -/
+    given object is stored, at an ancestor a new PRIMARY object for that ancestor; the loop stops at the first node that
+    lists the path in `valid_paths` **and** still stores a valid object with that path (fix 5f6015f) -/
 def putLoop (l : Nat) (o : Nat) (path : Path) : List Path → St → St
   | [], s => s
   | np :: rest, s =>
       let opath := if np = path then objPath s o else np
-      if opath ∈ s.vpaths np l then s                                  -- `break`
+      if opath ∈ s.vpaths np l ∧ specValid s np l opath = true then s              -- `break`
       else
         let (s1, oid) := if np = path then (s, o)
                          else ({ s with heap := s.heap ++ [⟨l, np, true⟩] }, s.heap.length)
         putLoop l o path rest
-          { s1 with locs := upd s1.locs np l (s1.locs np l ++ [oid]), vpaths := upd s1.vpaths np l (s1.vpaths np l ++ [opath]) }
+          { s1 with locs := upd s1.locs np l (s1.locs np l ++ [oid]), vpaths := upd s1.vpaths np l (setAddP (s1.vpaths np l) opath) }
 
 /-- `put(path, data_location, recursive)`: create the nodes, then the bottom-up loop -/
 def put (s : St) (path : Path) (o : Nat) (recursive : Bool) : St :=
@@ -73,8 +80,6 @@ def relate (s : St) (src dst : Nat) : St := relateLoop dst (entriesAt s (objPath
 inductive Res where
   | ok (s : St)
   | keyError
-  /-- the step budget is exhausted (`RecursionError` when no budget suffices) -/
-  | recursion
 
 /-- `data_loc.data_type = INVALID; valid_paths.discard(data_loc.path)` for every object of the node for `l`
     (an assignment that changes nothing leaves the state as it is) -/
@@ -91,38 +96,21 @@ def markLoop (p : Path) (l : Nat) : List Nat → St → St
 def children (s : St) (p : Path) : List Path :=
   (s.nodes.filter (fun q => q.length = p.length + 1 ∧ p.isPrefixOf q)).eraseDups
 
-mutual
-  /-- `invalidate_location(location, path)`; every call and loop iteration costs one unit of fuel -/
-  def invalidate : Nat → St → Nat → Path → Res
-    | 0, _, _, _ => .recursion
-    | fuel + 1, s, l, p =>
-        if p ≠ [] ∧ p ∉ s.nodes then .keyError
-        else childLoop fuel (markLoop p l (s.locs p l) s) l (children s p)
-  /-- `for node_child in node.children.values()` -/
-  def childLoop : Nat → St → Nat → List Path → Res
-    | 0, _, _, _ => .recursion
-    | _ + 1, s, _, [] => .ok s
-    | fuel + 1, s, l, c :: cs =>
-        match entryLoop fuel s l (s.locs c l) with
-        | .ok s' => childLoop fuel s' l cs
-        | e => e
-  /-- `for data_loc in node_child.locations[dep][name]: if data_loc.data_type != INVALID: invalidate_location(…)` -/
-  def entryLoop : Nat → St → Nat → List Nat → Res
-    | 0, _, _, _ => .recursion
-    | _ + 1, s, _, [] => .ok s
-    | fuel + 1, s, l, o :: os =>
-        if objValid s o then
-          match invalidate fuel s (objLoc s o) (objPath s o) with
-          | .ok s' => entryLoop fuel s' l os
-          | e => e
-        else entryLoop fuel s l os
-end
+/-- `_invalidate_node(location, node)` (fix 5f6015f): mark the node, then walk the child *nodes*. The recursion follows the
+    tree; `depth` is the number of levels still to descend (the tree is finite: `invalidate` passes its height) -/
+def invNode : Nat → St → Nat → Path → St
+  | 0, s, l, p => markLoop p l (s.locs p l) s
+  | depth + 1, s, l, p =>
+      (children s p).foldl (fun s c => invNode depth s l c) (markLoop p l (s.locs p l) s)
+
+/-- length of the longest node path -/
+def height (s : St) : Nat := s.nodes.foldl (fun m q => max m q.length) 0
+
+/-- `invalidate_location(location, path)`: `KeyError` when the node does not exist -/
+def invalidate (s : St) (l : Nat) (p : Path) : Res :=
+  if p ≠ [] ∧ p ∉ s.nodes then .keyError else .ok (invNode (height s) s l p)
 
 /-- `get_data_locations(path, deployment, location_name)`: the valid objects stored at the node for `l` -/
 def getLocs (s : St) (path : Path) (l : Nat) : List Nat := (s.locs path l).filter (objValid s)
-
-/-- the registry without its `valid_paths` cache: `put` asks the objects themselves -/
-def specValid (s : St) (np : Path) (l : Nat) (p : Path) : Bool :=
-  (s.locs np l).any (fun o => objValid s o && objPath s o == p)
 
 end SFV.Registry
